@@ -29,7 +29,7 @@ man = {
     'setup_cmd': 'python3 -m py_compile engine/ir2c.py engine/vpdriver.py && cbmc --version && clang++-14 --version | head -1',
     'hooks': {'guard': 'ST_VERIF_HOOKS', 'enable': 'no hooks are needed: checks compile /repo/include unmodified (ST_ASSERT failures are recognised in the IR)', 'baseline_off_cmd': '/verif/scripts/baseline.sh', 'source_commits': [], 'add_only': True},
     'engines': [{'name': 'ir2c+cbmc', 'path': '/verif/engine', 'serves_properties': [c['property_id'] for c in checks],
-                 'kind_free_text': 'clang++-14 -O1 LLVM IR of thin extern-C shims over the real headers -> own IR-to-C translator (engine/ir2c.py) -> CBMC 6.11 bounded model checking (SAT), per-query reachability witnesses, native replay of counterexamples under ASan/UBSan'}],
+                 'kind_free_text': 'clang++-14 -O1 LLVM IR of thin extern-C shims over the real headers -> own IR-to-C translator (engine/ir2c.py) -> CBMC 6.11 bounded model checking (SAT), per-query reachability witnesses, native replay under ASan/UBSan of every counterexample and (translation validation, every run) of every witness trace against the real g++ build'}],
     'checks': checks,
     'not_applicable': na,
     'notes': 'Exit codes of ./vp check: 0 property held on everything explored (or only known findings), 1 reproduced violation (VIOLATION line), 2 inconclusive / machinery failure (never a VIOLATION line). Fix commits in /repo are listed in known_findings.json (fixed:).',
